@@ -193,6 +193,21 @@ CHECKS = {
         "2 s / 20 s budgets as termination; scratch cwd/HOME.",
         "DESIGN.md section 5 C13",
     ),
+    "C14": (
+        "metamorphic property-based testing: random re-layout, re-spelling "
+        "and re-parenthesisation of generated programs must not change the "
+        "observable outcome",
+        "Programs from the C02-C05 generators plus adversarial string-literal "
+        "programs and hand-written adjacency snippets are re-rendered >= 10 "
+        "(thorough 20) times each with random separators at every token "
+        "boundary (incl. none, TAB, CRLF, comments, comment at end of input), "
+        "optional semicolons dropped, redundant parentheses and alternative "
+        "literal spellings; value rendering, stdout and error value must "
+        "equal the canonical rendering's. No reference model is involved.",
+        "Trusted: the adjacency rule of Appendix B and the spelling "
+        "functions (each spelling is a documented literal form).",
+        "DESIGN.md section 5 C14",
+    ),
     "C15": (
         "exhaustive enumeration of small sequences x index arguments against "
         "a sequence reference model, plus Hypothesis for long sequences and "
